@@ -295,7 +295,7 @@ def describe(tier):
                     ("and every subset of size 3" if tier == "thorough" else "4 subsets of size 3") + ") of {} plus two reordered sets and four sets on which one name occurs twice; target kind cas/dsk; "
                     "disk sources on descending and track-17-crossing chains, and with KILLed / never-used directory entries before and between the files; cassette sources recorded with gaps (gap flag $FF) and with 128- and 7-byte data blocks, and with names padded with $00; "
                     "--files = every non-empty subset of the names in upper/lower/mixed case, with an absent name, and only an absent name; chains "
-                    "cas>dsk>cas and dsk>cas>dsk; --to_bin on 1- and 2-file sources".format([C.brief(f) for f in FILES]),
+                    "cas>dsk>cas and dsk>cas>dsk; --to_bin on 1- and 2-file sources; machine-language files whose 5-byte trailer crosses a sector boundary on a disk (248, 2553, 251 bytes)".format([C.brief(f) for f in FILES]),
         "bound": "single conversions and chains of two",
         "oracle": "target parsed by the independent reader lists exactly the selected files in source order with identical type, flag, data and "
                   "(ML files) addresses; chain end = chain start; --to_bin = data bytes; more than one file => non-zero exit and no file",
